@@ -958,11 +958,11 @@ func (s *NilSafeSubscriptExpressionNode) IsStatic() bool {
 }
 
 func (*NilSafeSubscriptExpressionNode) Class() *value.Class {
-	return value.SubscriptExpressionNodeClass
+	return value.NilSafeSubscriptExpressionNodeClass
 }
 
 func (*NilSafeSubscriptExpressionNode) DirectClass() *value.Class {
-	return value.SubscriptExpressionNodeClass
+	return value.NilSafeSubscriptExpressionNodeClass
 }
 
 func (n *NilSafeSubscriptExpressionNode) Inspect() string {
